@@ -55,7 +55,7 @@ Theorem C06_all_fulfilled_when_accepted : forall total sz s big extra,
   Inv total s -> sizes_ok sz s -> Forall (fun e => length (e_rest e) <= big) (queue s) ->
   let s' := fst (drain (S (length (queue s)) + extra) s (repeat (Acc big) (length (queue s)))) in
   queue s' = [] /\ wire s' = total
-  /\ map fst (settled s') = map fst (settled s) ++ pids s
+  /\ map fst (settled s') = (map fst (settled s) ++ pids s)%list
   /\ Forall (fun p => snd p = sz (fst p)) (settled s').
 Proof. exact all_fulfilled_when_accepted. Qed.
 Print Assumptions C06_all_fulfilled_when_accepted.
